@@ -1,2 +1,128 @@
-def main (_args : List String) : IO UInt32 := do
-  IO.eprintln "stub"; return 2
+import DEngine.Model.Proto
+import DEngine.Model.Snap
+/-
+  Driver of family `snap` (C16).
+  case   : `eng=<file|rocks> ret=<retained_log_entries> pb=<entries the follower applied before>|e;e;snap;e…`
+           entry `e` = `<term>/<cmd>` with cmd: put,k,v,ttl|-  del,k  cas,k,exp|-,new  noop
+           `snap` = the leader calls create_snapshot here (first occurrence counts)
+  output : `label=<i>.<t> inst=<kv> ila=<i>.<t> b=<kv> bla=<i>.<t> a=<kv> ala=<i>.<t>`   (or `nosnap a=<kv> ala=…`)
+-/
+open DEngine DEngine.Proto DEngine.MiniKv DEngine.Snap
+
+def parseCmd (s : String) : Option Cmd :=
+  match s.splitOn "," with
+  | ["put", k, v, t] => do pure (.put (← k.toNat?) (← v.toNat?) (← parseOpt t))
+  | ["del", k] => do pure (.del (← k.toNat?))
+  | ["cas", k, e, v] => do pure (.cas (← k.toNat?) (← parseOpt e) (← v.toNat?))
+  | ["noop"] => some .noop
+  | _ => none
+
+/-- `none` = the snap marker. -/
+def parseItem (s : String) : Option (Option Entry) :=
+  if s == "snap" then some none
+  else match s.splitOn "/" with
+    | [t, c] => do pure (some { term := (← t.toNat?), cmd := (← parseCmd c) })
+    | _ => none
+
+structure Case where
+  eng : Eng
+  ret : Nat
+  pb : Nat
+  log : List Entry
+  /-- number of entries before the first `snap` marker. -/
+  snapAt : Option Nat
+
+def parseCase (line : String) : Option Case :=
+  match line.splitOn "|" with
+  | [hd, body] => do
+    let fs := fields hd
+    let eng ← match lookup fs "eng" with
+      | some "file" => some Eng.file
+      | some "rocks" => some Eng.rocks
+      | _ => none
+    let ret ← natField fs "ret"
+    let pb ← natField fs "pb"
+    let items ← (if body.isEmpty then some [] else (body.splitOn ";").mapM parseItem)
+    let log := items.filterMap id
+    let snapAt := match items.findIdx? (·.isNone) with
+      | some i => some ((items.take i).filterMap id).length
+      | none => none
+    pure { eng, ret, pb, log, snapAt }
+  | _ => none
+
+def showId (i t : Nat) : String := s!"{i}.{t}"
+
+def modelLine (line : String) : String :=
+  match parseCase line with
+  | none => "bad-case\t-"
+  | some c =>
+    let a := replica c.log c.log.length
+    match c.snapAt with
+    | none => s!"nosnap a={showMap "=" a.kv} ala={showId a.la a.laTerm}\tnosnap"
+    | some n =>
+      let pb := min c.pb n
+      let (snap, inst, b) := scenario c.eng c.ret c.log n pb
+      let tags :=
+        [if snap.labelIdx == n then "label-at-applied" else "label-behind",
+         if sameKvB b.kv a.kv then "replay-eq" else "replay-differs",
+         if (entryTerm c.eng (replica c.log n) snap.labelIdx).isSome then "entry-term-hit" else "entry-term-none"] ++
+        (if (c.log.drop snap.labelIdx).any (fun e => match e.cmd with | .cas .. => true | _ => false)
+          then ["cas-in-replayed-suffix"] else []) ++
+        (if pb > 0 then ["follower-had-state"] else [])
+      s!"label={showId snap.labelIdx snap.labelTerm} inst={showMap "=" inst.kv} ila={showId inst.la inst.laTerm} b={showMap "=" b.kv} bla={showId b.la b.laTerm} a={showMap "=" a.kv} ala={showId a.la a.laTerm}\t{",".intercalate tags}"
+
+def parseMap (s : String) : Option AMap :=
+  if s == "-" then some []
+  else (s.splitOn ",").mapM fun kv =>
+    match kv.splitOn "=" with
+    | [k, v] => do pure ((← k.toNat?), (← v.toNat?))
+    | _ => none
+
+def parseId (s : String) : Option (Nat × Nat) :=
+  match s.splitOn "." with
+  | [i, t] => do pure ((← i.toNat?), (← t.toNat?))
+  | _ => none
+
+/-- `key=value` tokens where the value may itself contain `=` (split at the first one). -/
+def outFields (s : String) : List (String × String) :=
+  (s.splitOn " ").filterMap fun tok =>
+    match tok.splitOn "=" with
+    | k :: v :: rest => some (k, "=".intercalate (v :: rest))
+    | _ => none
+
+/-- The C16 monitor on the implementation's output. -/
+def monitorC16 (c : Case) (out : String) : String :=
+  match c.snapAt with
+  | none => "skip"
+  | some n =>
+    let fs := outFields out
+    match (lookup fs "label").bind parseId, (lookup fs "inst").bind parseMap, (lookup fs "b").bind parseMap,
+          (lookup fs "bla").bind parseId, (lookup fs "a").bind parseMap, (lookup fs "ala").bind parseId,
+          (lookup fs "ila").bind parseId with
+    | some (li, lt), some inst, some b, some bla, some a, some ala, some ila =>
+      -- the installed node must report the snapshot's label as its applied index
+      if ila != (li, lt) then "bad install-last-applied-not-label"
+      -- snapshot_replay_eq: install + replay of (label, end] = full apply
+      else if !(sameKvB b a) || bla.1 != ala.1 then "bad snapshot-replay-differs"
+      -- label_matches_state
+      else if li ≥ 1 ∧ (c.log.getD (li - 1) default).term ≠ lt then "bad snapshot-label-term-wrong"
+      else if li ≠ n then "bad snapshot-label-behind-state"
+      else if !(sameKvB inst (applyAll [] ((c.log.take li).map (·.cmd)))) then "bad snapshot-state-not-at-label"
+      else "ok"
+    | _, _, _, _, _, _, _ => if out == "panic" then "bad panic" else "bad impl-output-unparseable"
+
+def monitorLine (prop : String) (line : String) : String :=
+  match line.splitOn "\t" with
+  | [case, out] =>
+    match parseCase case with
+    | none => "bad-case"
+    | some c => if prop == "C16" then monitorC16 c out else "skip"
+  | _ => "bad-line"
+
+def main (args : List String) : IO UInt32 := do
+  let stdin ← IO.getStdin
+  let stdout ← IO.getStdout
+  match args with
+  | ["model"] => loop stdin stdout modelLine; return 0
+  | ["monitor", p] => loop stdin stdout (monitorLine p); return 0
+  | _ => IO.eprintln "usage: drv_snap model | monitor <prop>"; return 2
